@@ -142,3 +142,48 @@ def rule_TOOL(ctx):
     res.floor('per-line loops', nloops, 9)
     res.analysed['tools'] = sorted(tools)
     return res
+
+
+def rule_S1(ctx):
+    """replacement tables: an earlier pattern must not occur inside a later one."""
+    res = RuleResult('S1', 'symbol-replacement sequence of DMS::Decode: no pattern that is replaced earlier occurs inside a '
+                           'pattern replaced later (the later, longer symbol would be mangled before it can match)')
+    NS = 'GeographicLib::'
+    fs = ctx.prog.fn(NS + 'DMS::Decode')
+    n = 0
+    for f in fs:
+        calls = []
+        for i, nd in f.all_nodes():
+            ce = nd.get('callee')
+            if ce and ce.get('q') == NS + 'DMS::replace' and len(nd.get('args', [])) >= 2:
+                lits = _str_lits_bytes(f, nd['args'][1])
+                if len(lits) == 1:
+                    calls.append((nd['l'], nd['c'], i, lits[0]))
+        calls.sort()
+        if not calls:
+            continue
+        for a in range(len(calls)):
+            for b in range(a + 1, len(calls)):
+                pa, pb = calls[a][3], calls[b][3]
+                n += 1
+                bad = len(pa) < len(pb) and pa in pb
+                if bad or n % 400 == 1:
+                    res.ob(not bad, {'earlier': repr(pa), 'at': f.loc(calls[a][2]), 'later': repr(pb), 'at2': f.loc(calls[b][2])})
+                else:
+                    res.ob(True, None)
+                if bad:
+                    res.fail(f.q, 'replace:%s' % pa.hex(), f.loc(calls[a][2]),
+                             'the pattern %r (replaced at %s) occurs inside %r, which is only replaced later at %s: that '
+                             'documented symbol is mangled and then rejected' % (pa, f.loc(calls[a][2]), pb, f.loc(calls[b][2])))
+        res.analysed['replacement_calls'] = len(calls)
+    res.floor('ordered pattern pairs', n, 500)
+    return res
+
+
+def _str_lits_bytes(f, nid):
+    out = []
+    for j in f.walk(nid):
+        n = f.nodes[j]
+        if n['k'] == 'StringLiteral' and 'bytes' in n:
+            out.append(bytes(n['bytes']))
+    return out
